@@ -1015,6 +1015,18 @@ pub fn c06_cases(rng: &mut Rng, tier: &str, out: &mut Out) {
         }
         case_a(rng, out, &format!("c06-a-{k}"), &plan, scaled && (thorough || k < 40), full_x);
     }
+    // (a'') key wrapping for LARGE recipient sets (the header grows by 48 bytes per recipient; 85 recipients pass 4 KiB):
+    // library -> independent decoder, and independent encoder -> library
+    for (i, nrec) in [(0usize, 84usize), (1, 85), (2, 100), (3, 300)] {
+        if !thorough && i % 2 == 1 {
+            continue;
+        }
+        let mut plan = archive::gen_plan(rng, if i % 2 == 0 { L_ENC } else { L_ENC | L_COMP });
+        plan.recipients = nrec;
+        plan.reader_key = nrec - 1 - i;
+        case_a(rng, out, &format!("c06-a-rec{nrec}"), &plan, false, false);
+        case_b(rng, out, &format!("c06-b-rec{nrec}"), &plan, false, false, false);
+    }
     // (a') every interleaving of up to 4 (quick) / 5 (thorough) pieces of sizes {0, 3} over two files
     // started up front (empty pieces given to the file that is / is not being written): the index
     // the writer leaves must be the one FORMAT.md describes (offsets of blocks of the SAME file)
